@@ -64,6 +64,13 @@ use std::borrow::Cow;
 #[derive(Encode, Decode, CborLen, Debug, PartialEq)] struct SkipA { #[n(0)] kind: Option<Kind>, #[n(1)] seq: u8, #[n(2)] text: String, #[n(3)] last: Option<Kind> }
 #[derive(Encode, Decode, CborLen, Debug, PartialEq)] struct StampA { #[cbor(n(0), tag(1))] at: Option<u64>, #[n(1)] seq: u8, #[cbor(n(2), tag(2))] end: Option<u64> }
 
+/// std wrappers with interior mutability around an `Option`: mandatory fields for every reader (only `Option` itself and what forwards BOTH
+/// `is_nil` and `nil` may be left out by a writer)
+#[derive(Encode, Decode, CborLen, Debug, PartialEq)] struct CellA { #[n(0)] id: u8, #[n(1)] c: std::cell::Cell<Option<u8>> }
+#[derive(Encode, Decode, CborLen, Debug, PartialEq)] #[cbor(map)] struct CellM { #[n(0)] id: u8, #[n(1)] c: std::cell::Cell<Option<u8>> }
+#[derive(Encode, Decode, CborLen, Debug, PartialEq)] struct RefA { #[n(0)] id: u8, #[n(1)] c: std::cell::RefCell<Option<u8>> }
+#[derive(Encode, Decode, CborLen, Debug, PartialEq)] #[cbor(map)] struct RefM { #[n(0)] c: std::cell::RefCell<Option<u8>>, #[n(1)] id: u8 }
+
 /// a three-state user type: `Keep` is its nil value (left out by the derived encoder, filled in by `Decode::nil`), `Clear` is written as
 /// `null` — a present value, which only the type's own decoder can tell from a number
 #[derive(Debug, PartialEq, Clone, Copy)] enum Patch { Keep, Clear, Set(u8) }
@@ -221,6 +228,10 @@ pub fn run(w: &[&str]) -> String {
             let r2 = match d2.decode::<StampA>() { Ok(x) => format!("{}:{}:{}@{}", o(&x.at), x.seq, o(&x.end), d2.position()), Err(e) => format!("err:{}", dclass(&e)) };
             format!("{} len=0 dec={} pos=0", hex(&b), if *which == "A" { r1 } else { r2 })
         }
+        ("CellA", [id, p]) => rt(&CellA { id: id.parse().ok()?, c: std::cell::Cell::new(opt_u8(p)?) }, |x| format!("{},{}", x.id, show_opt(&x.c.get()))),
+        ("CellM", [id, p]) => rt(&CellM { id: id.parse().ok()?, c: std::cell::Cell::new(opt_u8(p)?) }, |x| format!("{},{}", x.id, show_opt(&x.c.get()))),
+        ("RefA", [id, p]) => rt(&RefA { id: id.parse().ok()?, c: std::cell::RefCell::new(opt_u8(p)?) }, |x| format!("{},{}", x.id, show_opt(&x.c.borrow()))),
+        ("RefM", [id, p]) => rt(&RefM { id: id.parse().ok()?, c: std::cell::RefCell::new(opt_u8(p)?) }, |x| format!("{},{}", x.id, show_opt(&x.c.borrow()))),
         ("IoT", [k]) => { let v = match *k { "A" => IoT::A, "B" => IoT::B, _ => IoT::C }; rt(&v, |x| format!("{:?}", x)) }
         ("TrT", [n]) => rt(&TrT(n.parse().ok()?), |x| format!("{}", x.0)),
         ("TrOuter", [a, b, k]) => rt(&TrOuter { a: TrT(a.parse().ok()?), b: if *b == "N" { None } else { Some(TrT(b.parse().ok()?)) }, k: match *k { "A" => IoT::A, "B" => IoT::B, _ => IoT::C } },
